@@ -200,6 +200,8 @@ func runC12(p *Prog, r *Report) {
 	overrideOverlapRule(p, r, "C12.R16")
 	converterArmInventoryRule(p, r, "C12.R17")
 	c03R4(p, r, "C12.R18", []string{"config", "config/parse"})
+	matchesGates(p, r, "C12.R19", "builder.isEnum")
+	enumDisabledRule(p, r, "C12.R20")
 	settingLinesTrimRule(p, r, "C12.R14")
 	armStoresRule(p, r, "C12.R8", "config.parseMethodLine", allArmKeys("config.parseMethodLine")...)
 	armStoresRule(p, r, "C12.R9", "config.parseConverterLine", allArmKeys("config.parseConverterLine")...)
